@@ -7,6 +7,7 @@ import ChythonModel.Proofs.C02Pairing
 import ChythonModel.Proofs.C02Writer
 import ChythonModel.Proofs.C02Closures
 import ChythonModel.Proofs.C02HeapBound
+import ChythonModel.Proofs.C02ReadOk
 /-!
 # C02 — SMILES write then read is lossless; canonical strings never collide
 
@@ -222,6 +223,39 @@ theorem read_write_bonds_partial (m : Mol) (env : Env) (opts : Opts) (rs : List 
   exact chain_roundtrip m opts rs
     (fun r hr => ((smilesRounds_spec m env opts rs order h).1 r hr).emittedRound) es hread
 
+/-- **writer_text_is_readable**: for every run of the writer whose traversal is well formed (`cyclesWF`), writes every
+    closure atom once and gives every cycle its two ends (all three evaluated by the driver on every case), the SMILES
+    connection semantics `readToks` raises NO error on the text: never two bond symbols in a row, never a bond symbol
+    before a parenthesis or at the end, never a `)` without `(`, never a closure digit before the first atom, never a ring
+    closed on the atom that opened it, no parenthesis or closure left open. -/
+theorem writer_text_is_readable (m : Mol) (env : Env) (opts : Opts) (rs : List Round) (order : List Nat)
+    (h : smilesRounds m env opts = .ok (rs, order))
+    (hwf : cyclesWF [] [] (rs.flatMap roundCycles) = true)
+    (honce : (rs.flatMap fun r => closureAtoms r.smi r.tokens).Nodup)
+    (hclosed : (pairAll [] (rs.flatMap cycleEvents)).1 = []) :
+    ∃ es, readToks (joinRounds rs) = .ok es := by
+  apply writer_readToks_ok m env opts rs order h hwf ?_ hclosed
+  have : (rs.flatMap roundCAtoms).map (·.n) = rs.flatMap fun r => closureAtoms r.smi r.tokens := by
+    rw [List.map_flatMap]
+    apply flatMap_congr'
+    intro r _
+    simp [roundCAtoms, Function.comp_def]
+  rw [this]; exact honce
+
+/-- **read_write_bonds** without assuming that reading succeeds: under the three structural facts about the traversal,
+    the text IS read, its chain bonds are the DFS tree bonds and its closure bonds the DFS cycle ends. -/
+theorem read_write_bonds_of_structure (m : Mol) (env : Env) (opts : Opts) (rs : List Round) (order : List Nat)
+    (h : smilesRounds m env opts = .ok (rs, order))
+    (hwf : cyclesWF [] [] (rs.flatMap roundCycles) = true)
+    (honce : (rs.flatMap fun r => closureAtoms r.smi r.tokens).Nodup)
+    (hclosed : (pairAll [] (rs.flatMap cycleEvents)).1 = []) :
+    ∃ es, readToks (joinRounds rs) = .ok es ∧
+      chainOf es = (rs.flatMap fun r => r.smi.filterMap FTok.bond?) ∧
+      closureEdges es = (pairAll [] (rs.flatMap cycleEvents)).2 := by
+  obtain ⟨es, hes⟩ := writer_text_is_readable m env opts rs order h hwf honce hclosed
+  obtain ⟨h1, h2, _⟩ := read_write_bonds_partial m env opts rs order h hwf es hes
+  exact ⟨es, hes, h1, h2⟩
+
 /-- a non-trivial instance of the hypotheses of `read_write_bonds_partial` / `writer_closure_roundtrip`:
     bicyclo[1.1.0]butane `C12CC1C2` (two closures, one of them opened on an atom that already carries one) -/
 def bicycloButane : Mol :=
@@ -237,7 +271,8 @@ def bicycloDemo : Bool :=
   | .ok (rs, _) =>
     cyclesWF [] [] (rs.flatMap roundCycles) &&
     (match readToks (joinRounds rs) with
-     | .ok es => (closureEdges es).length == 2 && (chainOf es).length == 3 && tokensDenoteMol bicycloButane {} rs (joinRounds rs)
+     | .ok es => (closureEdges es).length == 2 && (chainOf es).length == 3 && tokensDenoteMol bicycloButane {} rs (joinRounds rs) &&
+         decide (rs.flatMap fun r => closureAtoms r.smi r.tokens).Nodup && (pairAll [] (rs.flatMap cycleEvents)).1.isEmpty
      | .error _ => false)
   | .error _ => false
 example : bicycloDemo = true := by decide +kernel
